@@ -52,11 +52,22 @@ func (g *Generator) generateMethodFunction(obj *tlparser.Method) jen.Code {
 		resp = jen.Index().Add(resp)
 	}
 
-	// еще одно злоебучее исключение. проблема в том, что bool это вот как бы и объект, да вот как бы и нет
-	// трабла только в том, что нельзя просто так взять, и получить bool из MakeRequest. так что
-	// возвращаем tl.Bool
-	if obj.Response.Type == "Bool" {
-		resp = jen.Op("*").Qual(tlPackagePath, "PseudoBool")
+	// MakeRequest unwraps Bool into native bool, so method returns bool too (typeIdFromSchemaType already
+	// did it). The only trouble: value which is returned with error can't be nil for bools, enums and numbers
+	zeroResp := jen.Nil()
+	if !obj.Response.IsList {
+		switch obj.Response.Type {
+		case "Bool":
+			zeroResp = jen.False()
+		case "int", "long", "double":
+			zeroResp = jen.Lit(0)
+		case "string":
+			zeroResp = jen.Lit("")
+		default:
+			if _, isEnum := g.schema.Enums[obj.Response.Type]; isEnum {
+				zeroResp = jen.Lit(0)
+			}
+		}
 	}
 
 	responses := []jen.Code{resp, jen.Error()}
@@ -75,7 +86,7 @@ func (g *Generator) generateMethodFunction(obj *tlparser.Method) jen.Code {
 	method := jen.Func().Params(jen.Id("c").Op("*").Id("Client")).Id(goify(obj.Name, true)).Params(g.generateArgumentsForMethod(obj)...).Params(responses...).Block(
 		jen.List(jen.Id("responseData"), jen.Id("err")).Op(":=").Id("c").Dot("MakeRequest").Call(g.generateMethodArgumentForMakingRequest(obj)),
 		jen.If(jen.Err().Op("!=").Nil()).Block(
-			jen.Return(jen.Nil(), jen.Qual(errorsPackagePath, "Wrap").Call(jen.Err(), jen.Lit("sending "+goify(obj.Name, true)))),
+			jen.Return(zeroResp, jen.Qual(errorsPackagePath, "Wrap").Call(jen.Err(), jen.Lit("sending "+goify(obj.Name, true)))),
 		),
 		jen.Line(),
 		jen.List(jen.Id("resp"), jen.Id("ok")).Op(":=").Id("responseData").Assert(resp),
